@@ -2386,10 +2386,15 @@ impl<'p> Evaluator<'_, 'p> {
             ValueData::Array(array) => {
                 let array = array.view();
 
-                for item in array.iter().rev() {
+                for (i, item) in array.iter().enumerate().rev() {
+                    self.push_trace_item(TraceItem::ArrayItem {
+                        span: None,
+                        index: i,
+                    });
                     self.state_stack
                         .push(State::FnFallible(Self::do_std_deep_join_array_item));
                     self.state_stack.push(State::DoThunk(item.view()));
+                    self.delay_trace_item();
                 }
 
                 Ok(())
